@@ -107,6 +107,7 @@ def install_storage_hooks():
             sim.kill_info = {'at': sim.kill_at, 'next_primitive': kind, 'in_delete_to': bool(sim.in_delete_to),
                              'done': list(sim.prim_log[:-1])}
             sim.dying = True
+            sim.freeze_disk()
             raise KillNow()
 
     orig_write = J.ResizableFile.write
@@ -131,7 +132,9 @@ def install_storage_hooks():
         def move(self, a, b):
             prim('meta_rename')
             import shutil
-            return shutil.move(a, b)
+            r = shutil.move(a, b)
+            prim('after_meta_rename')
+            return r
     J.shutil = _Shutil()
 
     orig_del_to = J.FileJournal.deleteEntriesTo
@@ -149,7 +152,9 @@ def install_storage_hooks():
 
     def atomicReplace(a, b):
         prim('dump_rename')
-        return orig_replace(a, b)
+        r = orig_replace(a, b)
+        prim('after_dump_rename')      # dying here: the name points at whatever has reached the file so far
+        return r
     SER.atomicReplace = atomicReplace
 
     class _Gzip(object):
@@ -368,6 +373,38 @@ class Sim(object):
         return self.nodes[nid]._SyncObj__transport
 
     # ---- transport callbacks ------------------------------------------------------------
+    def freeze_disk(self):
+        """the stepped process dies now: remember its files as the operating system sees them (read through fresh
+        descriptors: what still sits in the dying process's userspace buffers is not part of it)"""
+        self.frozen = {}
+        if self.workdir is None:
+            return
+        for f in os.listdir(self.workdir):
+            p = os.path.join(self.workdir, f)
+            if os.path.isfile(p):
+                with open(p, 'rb') as fh:
+                    self.frozen[f] = fh.read()
+
+    def thaw_disk(self):
+        """after the dead process's frames have unwound (closing files flushes buffers post mortem): put back what
+        was on disk at the moment of death"""
+        frozen, self.frozen = getattr(self, 'frozen', None), None
+        if frozen is None or self.workdir is None:
+            return
+        for f in os.listdir(self.workdir):
+            p = os.path.join(self.workdir, f)
+            if os.path.isfile(p) and f not in frozen:
+                os.unlink(p)
+        for f, data in frozen.items():
+            p = os.path.join(self.workdir, f)
+            try:
+                cur = open(p, 'rb').read()
+            except IOError:
+                cur = None
+            if cur != data:
+                with open(p, 'wb') as fh:
+                    fh.write(data)
+
     def on_send(self, src, dst, msg):
         if self.dying:
             return      # (a bare `except:` in the code under test may swallow KillNow: the dead process sends nothing)
@@ -471,6 +508,9 @@ class Sim(object):
                         self.abandoned = self.nodes[n]
                         self.kill(n, destroy=False)
                         self.step_nid = None
+                        import gc
+                        gc.collect()          # writers still referenced by the dead frames close (and flush) now
+                        self.thaw_disk()
             elif k == 'deliver':
                 _, a, b, now, rnd = ev
                 self.begin(now, rnd)
